@@ -382,3 +382,36 @@ package circuitbreaker
 //@     invariant[placed] forall k Int :: 0 <= k && k < #i && sel(pick, k) ==> validResRules[countTrue(pick, k)] == rawResRules[k]
 //@     invariant[all-valid] forall j Int :: 0 <= j && j < len(validResRules) ==> validRule(validResRules[j])
 //@     invariant[frame] frame()
+
+// ---- C14: which old breaker is kept for a reloaded rule
+//@ spec func baseEq(a, b) = b != nil && a.Resource == b.Resource && a.Strategy == b.Strategy && a.RetryTimeoutMs == b.RetryTimeoutMs && a.MinRequestAmount == b.MinRequestAmount && a.StatIntervalMs == b.StatIntervalMs && a.StatSlidingWindowBucketCount == b.StatSlidingWindowBucketCount && a.ProbeNum == b.ProbeNum
+//@ spec func thrEq(a, b) = abs(a.Threshold - b.Threshold) < util.precision
+//@ spec func eqRule(a, b) = baseEq(a, b) && ((b.Strategy == SlowRequestRatio && a.MaxAllowedRtMs == b.MaxAllowedRtMs && thrEq(a, b)) || (b.Strategy == ErrorRatio && thrEq(a, b)) || (b.Strategy == ErrorCount && thrEq(a, b)))
+//@ spec func statReusable(a, b) = b != nil && a.Resource == b.Resource && a.Strategy == b.Strategy && a.StatIntervalMs == b.StatIntervalMs && a.StatSlidingWindowBucketCount == b.StatSlidingWindowBucketCount
+
+//@ func (r *Rule) isEqualsTo(newRule) res
+//@   props C14
+//@   requires r != nil
+//@   ensures[def] res <==> eqRule(r, newRule)
+//@   ensures[identical-rules-are-equal] baseEq(r, newRule) && r.MaxAllowedRtMs == newRule.MaxAllowedRtMs && r.Threshold == newRule.Threshold && (newRule.Strategy == SlowRequestRatio || newRule.Strategy == ErrorRatio || newRule.Strategy == ErrorCount) ==> res
+//@   modifies nothing
+
+//@ func (r *Rule) isStatReusable(newRule) res
+//@   props C14
+//@   requires r != nil
+//@   ensures[def] res <==> statReusable(r, newRule)
+//@   modifies nothing
+
+//@ func calculateReuseIndexFor(r, oldResCbs) (equalIdx, reuseStatIdx)
+//@   props C14
+//@   requires forall j Int :: 0 <= j && j < len(oldResCbs) ==> oldResCbs[j] != nil && oldResCbs[j].BoundRule() != nil
+//@   let n = len(oldResCbs)
+//@   ensures[ranges] 0 - 1 <= equalIdx && equalIdx < n && 0 - 1 <= reuseStatIdx && reuseStatIdx < n
+//@   ensures[first-equal] equalIdx >= 0 ==> eqRule(oldResCbs[equalIdx].BoundRule(), r) && (forall j Int :: 0 <= j && j < equalIdx ==> !eqRule(oldResCbs[j].BoundRule(), r))
+//@   ensures[none-equal] equalIdx < 0 ==> (forall j Int :: 0 <= j && j < n ==> !eqRule(oldResCbs[j].BoundRule(), r))
+//@   ensures[first-stat-reusable] reuseStatIdx >= 0 ==> statReusable(oldResCbs[reuseStatIdx].BoundRule(), r) && (forall j Int :: 0 <= j && j < reuseStatIdx ==> !statReusable(oldResCbs[j].BoundRule(), r))
+//@   modifies nothing
+//@   loop 1:
+//@     invariant[no-equal-yet] equalIdx == 0 - 1 && (forall j Int :: 0 <= j && j < #i ==> !eqRule(oldResCbs[j].BoundRule(), r))
+//@     invariant[stat-idx] 0 - 1 <= reuseStatIdx && reuseStatIdx < #i && (reuseStatIdx >= 0 ==> statReusable(oldResCbs[reuseStatIdx].BoundRule(), r) && (forall j Int :: 0 <= j && j < reuseStatIdx ==> !statReusable(oldResCbs[j].BoundRule(), r)))
+//@     invariant[no-stat-yet] reuseStatIdx < 0 ==> (forall j Int :: 0 <= j && j < #i ==> !statReusable(oldResCbs[j].BoundRule(), r))
